@@ -1,5 +1,6 @@
 #![allow(dead_code)]
 mod e1;
+mod e2;
 mod families;
 mod oracle;
 mod plans;
@@ -37,6 +38,11 @@ fn main() {
                 std::process::exit(2);
             }
         }
+    }
+    if args[1] == "show" {
+        let path = args.get(2).unwrap_or_else(|| usage());
+        plans::show(path);
+        return;
     }
     if args[1] == "replay" {
         let path = args.get(2).unwrap_or_else(|| usage());
